@@ -5,10 +5,13 @@ package main
 
 import (
 	"bufio"
+	"encoding/hex"
 	"fmt"
 	"io"
 	"os"
 	"os/exec"
+	"regexp"
+	"sort"
 	"strings"
 	"time"
 
@@ -187,7 +190,56 @@ func (d *driver) modelEval(prog string, input interface{}) (string, error) {
 	if err != nil {
 		return "", fmt.Errorf("parse: %v", err)
 	}
-	return d.ask("eval\t" + nodeSexp(node) + "\t" + valueSexp(input))
+	plain := nodeSexp(node)
+	if strings.Contains(plain, "(regex ") {
+		regexSubjects = collectSubjects(plain, input)
+		plain = nodeSexp(node)
+		regexSubjects = nil
+	}
+	return d.ask("eval\t" + plain + "\t" + valueSexp(input))
+}
+
+var reStrAtom = regexp.MustCompile(`\(str s([0-9a-f]*)\)`)
+
+// collectSubjects lists the strings a regex of the program can plausibly be applied to: the
+// string literals of the program and every string (and key) of the input.
+func collectSubjects(sexp string, input interface{}) []string {
+	seen := map[string]bool{}
+	out := []string{}
+	add := func(s string) {
+		if !seen[s] && len(out) < 64 {
+			seen[s] = true
+			out = append(out, s)
+		}
+	}
+	for _, m := range reStrAtom.FindAllStringSubmatch(sexp, -1) {
+		if b, err := hex.DecodeString(m[1]); err == nil {
+			add(string(b))
+		}
+	}
+	var walk func(v interface{})
+	walk = func(v interface{}) {
+		switch x := v.(type) {
+		case string:
+			add(x)
+		case []interface{}:
+			for _, e := range x {
+				walk(e)
+			}
+		case map[string]interface{}:
+			keys := make([]string, 0, len(x))
+			for k := range x {
+				keys = append(keys, k)
+			}
+			sort.Strings(keys)
+			for _, k := range keys {
+				add(k)
+				walk(x[k])
+			}
+		}
+	}
+	walk(input)
+	return out
 }
 
 // normaliseModel maps the model's outcome text onto the classes the
